@@ -468,12 +468,12 @@ pub fn prop() -> Prop {
         id: ID,
         rule: "valid sentences, 1-3-edit near misses, token soup and arbitrary Unicode strings, extreme integers in every integer position (as text, also beyond i64, and as programmatic ASTs within the I-JSON range on arrays of length 0-3 and 200), \
                document-guided queries with filters/functions/regex, on scalar, empty, nested and wide documents; every case runs parse_json_path, query, query_with_path, query_only_path, js_path_process, reference and reference_mut (overflow checks on); \
-               scaling probes in child processes: nesting 8..65536 of ( , !( , [?@ , f( ; long chains; documents of depth 8..4096. Oracle: every call returns Ok or Err (no panic, abort, PEG call budget overrun, 20 s watchdog), Ok/Err agree across entry points, and a parsed query never evaluates to Err. \
+               scaling probes in child processes: nesting 8..65536 of ( , !( , [?@ , f( ; long chains; documents of depth 8..4096. Oracle: every call returns Ok or Err (no panic, abort, PEG call budget overrun, 40 s watchdog), Ok/Err agree across entry points, and a parsed query never evaluates to Err. \
                Non-trivial: an integer with >= 10 digits, nesting >= 8, a near miss / arbitrary string, a scalar or empty document, or a probe. Distinct by (query text, document size).",
         assumptions: vec![
             "the library is built with overflow-checks and debug-assertions on, so arithmetic overflow is a panic",
             "bulk cases run on 64 MiB thread stacks with nesting <= 40; stack exhaustion is judged by the probes, which run on an 8 MiB stack in their own process",
-            "absence of hangs is not established: a PEG call budget (1000 calls per input character, fixed 10^6 for bulk inputs) and a 20 s watchdog per library call stand in for it",
+            "absence of hangs is not established: a PEG call budget (1000 calls per input character, fixed 10^6 for bulk inputs) and a 40 s watchdog per library call stand in for it",
         ],
         subs: vec![
             Sub { name: "probes", kind: Kind::Exhaustive(probes) },
